@@ -59,6 +59,17 @@ func Mk(c interface{}, id int, kids []interface{}) (interface{}, error) {
 	return &Node{id, kids}, nil
 }
 
+// Pct receives a string literal written in the grammar's action text; it must arrive unchanged.
+func Pct(c interface{}, id int, tag string, kids []interface{}) (interface{}, error) {
+	if err := enter(c, id); err != nil {
+		return nil, err
+	}
+	if tag != "%s|%d|%%|%v|%!" {
+		return &Node{id + 1000000, kids}, nil
+	}
+	return &Node{id, kids}, nil
+}
+
 func Sel(c interface{}, id int, x interface{}) (interface{}, error) {
 	if err := enter(c, id); err != nil {
 		return nil, err
